@@ -334,6 +334,9 @@ def check(chk, fx):
     chk.rule("TRACE", "trace labels whose printed operand must be the action's operand", 4)
     _trace(chk, fx)
     _trace_recognized(chk, fx)
+    # every name the trace prints comes out of term_names / nterm_names: how they are filled
+    from .. import primrules
+    primrules.prims(chk, fx, "NAMEFILL")
     # the characters named in the trace ("Current char", "Unexpected character") come out of a 256-entry name table:
     # a byte must reach it as an unsigned index or the trace names something that was never read
     from .. import lexrules
